@@ -804,7 +804,11 @@ class Polyhedron(Shape3D):
 
         """
         principal_moments, principal_axes = np.linalg.eigh(self.inertia_tensor)
+        # eigh may return an improper orthogonal matrix, which would mirror the shape.
+        if np.linalg.det(principal_axes) < 0:
+            principal_axes[:, -1] *= -1
         self._vertices = np.dot(self._vertices, principal_axes)
+        self._find_equations()
 
     def compute_form_factor_amplitude(self, q, density=1.0):  # noqa: D102
         """Calculate the form factor intensity.
